@@ -106,6 +106,19 @@ func runProperty(opt options) int {
 	// seeded order (results do not depend on it)
 	rng := rand.New(rand.NewSource(opt.seed))
 	rng.Shuffle(len(cases), func(i, j int) { cases[i], cases[j] = cases[j], cases[i] })
+	weight := func(c sym.CaseSpec) int {
+		w := c.Weight
+		if w == 0 {
+			for _, p := range c.Params {
+				w += p
+			}
+		}
+		if c.FP {
+			w += 1000
+		}
+		return w
+	}
+	sort.SliceStable(cases, func(i, j int) bool { return weight(cases[i]) > weight(cases[j]) })
 
 	results := make([]*sym.CaseResult, len(cases))
 	var wg sync.WaitGroup
